@@ -42,9 +42,30 @@ pub struct V {
 
 impl V {
     pub fn bytes(&self) -> Vec<u8> {
+        // the first 8 bytes are the tag itself (a read identifies the write it observed); the rest is a
+        // stream keyed by the tag with no short period: data misplaced inside a multi-page value by any
+        // distance reads back differently
         let t = self.tag.to_le_bytes();
+        if self.tag < 1000 {
+            // the pattern the golden files (written by the pinned release) were filled with
+            return (0..self.len).map(|i| t[i % 8] ^ ((i / 8) as u8).wrapping_mul(31)).collect();
+        }
+        let mut x = self.tag ^ 0x9E37_79B9_7F4A_7C15;
+        let mut word = [0u8; 8];
         (0..self.len)
-            .map(|i| t[i % 8] ^ ((i / 8) as u8).wrapping_mul(31))
+            .map(|i| {
+                if i < 8 {
+                    return t[i];
+                }
+                if i % 8 == 0 {
+                    x = x.wrapping_add(0x9E37_79B9_7F4A_7C15);
+                    let mut z = x;
+                    z = (z ^ (z >> 30)).wrapping_mul(0xBF58_476D_1CE4_E5B9);
+                    z = (z ^ (z >> 27)).wrapping_mul(0x94D0_49BB_1331_11EB);
+                    word = (z ^ (z >> 31)).to_le_bytes();
+                }
+                word[i % 8]
+            })
             .collect()
     }
 }
